@@ -330,9 +330,89 @@ func jumpAutomaton(w *World, m *runnerModel) *jumpFacts {
 	info := m.pkg.TypesInfo
 	f := m.jump
 	jf := &jumpFacts{successSeqs: map[string]bool{}, errSeqs: map[string]bool{}}
+	// When the visit accounting is written out in the jump executor itself (no separate updater), the accounting is the
+	// if statement that holds the update and nothing else; a path "counts the visit" when it evaluates that statement's
+	// condition (whether the count then grows is C11.R3's question, exactly as with a separate updater).
+	var accountingTrigger ast.Node
+	inlineAccounting := m.incVisit != nil && m.incVisit == m.jump
+	if inlineAccounting {
+		var update ast.Stmt
+		walkNoLit(f.Body, func(n ast.Node) bool {
+			switch q := n.(type) {
+			case *ast.IncDecStmt:
+				if ix, ok := unparen(q.X).(*ast.IndexExpr); ok && lastField(info, ix.X) == m.fVis {
+					update = q
+				}
+			case *ast.AssignStmt:
+				for _, l := range q.Lhs {
+					if ix, ok := unparen(l).(*ast.IndexExpr); ok && lastField(info, ix.X) == m.fVis {
+						update = q
+					}
+				}
+			}
+			return true
+		})
+		accountingTrigger = update
+		if update != nil {
+			var top *ast.IfStmt
+			child := ast.Node(update)
+			for p := w.parent[update]; p != nil && p != f.Node(); child, p = p, w.parent[p] {
+				is, ok := p.(*ast.IfStmt)
+				if !ok {
+					continue
+				}
+				if child != ast.Node(is.Body) || is.Else != nil {
+					break
+				}
+				// the body must hold nothing but the accounting
+				pure := true
+				walkNoLit(is.Body, func(q ast.Node) bool {
+					switch y := q.(type) {
+					case *ast.ReturnStmt, *ast.BranchStmt, *ast.GoStmt, *ast.SendStmt:
+						pure = false
+					case *ast.AssignStmt, *ast.IncDecStmt:
+						for _, fld := range storesTo(info, y) {
+							if fld != m.fVis {
+								pure = false
+							}
+						}
+					case *ast.CallExpr:
+						if _, on := methodCallOn(info, y, m.fStack); on {
+							pure = false
+						}
+					}
+					return true
+				})
+				if !pure {
+					break
+				}
+				top = is
+			}
+			if top != nil {
+				var first ast.Node
+				ast.Inspect(top.Cond, func(q ast.Node) bool {
+					switch q.(type) {
+					case *ast.CallExpr, *ast.IndexExpr, *ast.StarExpr, *ast.SelectorExpr:
+						if first == nil || q.Pos() < first.Pos() {
+							first = q
+						}
+					}
+					return true
+				})
+				if first != nil {
+					accountingTrigger = first
+				}
+			}
+		}
+	}
 	r := evtRule{
 		start: "",
 		prim: func(n ast.Node) []string {
+			if inlineAccounting && accountingTrigger != nil && n == accountingTrigger {
+				if _, isStmt := n.(ast.Stmt); !isStmt {
+					return []string{"INC"}
+				}
+			}
 			switch n := n.(type) {
 			case *ast.CallExpr:
 				if name, on := methodCallOn(info, n, m.fStack); on {
@@ -362,6 +442,9 @@ func jumpAutomaton(w *World, m *runnerModel) *jumpFacts {
 					case m.fNode:
 						evs = append(evs, "SETNODE")
 					case m.fVis:
+						if inlineAccounting && accountingTrigger != nil && n != accountingTrigger {
+							break // counted where the accounting statement is entered
+						}
 						evs = append(evs, "INC")
 					case m.fLast, m.fChan:
 						evs = append(evs, "OTHERSTORE")
@@ -492,8 +575,11 @@ func c01R3(c *Ctx, m *runnerModel, rule string) {
 			walkNoLit(f.Body, func(n ast.Node) bool {
 				if a, ok := n.(*ast.AssignStmt); ok && len(a.Lhs) == 2 && len(a.Rhs) == 1 {
 					if call, ok := a.Rhs[0].(*ast.CallExpr); ok {
-						if callee := calleeOf(info, call); callee != nil && callee.Name() == "FindNode" {
-							okIdent = identOf(a.Lhs[1])
+						if callee := calleeOf(info, call); callee != nil && callee.Name() == "FindNode" && len(call.Args) == 1 {
+							// the lookup of the destination (not, say, of the node being left)
+							if x.str(call.Args[0]) == findArg {
+								okIdent = identOf(a.Lhs[1])
+							}
 						}
 					}
 				}
